@@ -131,6 +131,7 @@ def p_C09(res, facts, tier):
     quant.check_convert(res, facts, 'C09')
     quant.check_search(res, facts, 'C09')
     quant.check_scale_edits_keep_cache(res, facts)
+    quant.check_search_history_free(res, facts)
 
 
 def p_C19(res, facts, tier):
